@@ -104,7 +104,7 @@ def main():
         hooks = [l.split()[0] for l in out.splitlines() if l.split(" ",1)[1].startswith("verif hook")]
     except Exception: pass
     m = {"version": 1,
-         "setup_cmd": "cd /verif/sim && cargo build --release --offline",
+         "setup_cmd": "cd /verif && ./check build all",
          "hooks": {"guard": "kolibrie_verif", "enable": "RUSTFLAGS=--cfg kolibrie_verif via /verif/sim/.cargo/config.toml; shadow manifests under /verif/sim/shadow compile /repo/<crate>/src in place with rayon->sim-rayon, crossbeam->sim-crossbeam",
                    "baseline_off_cmd": "cd /repo && (cargo nextest run --workspace --no-fail-fast --test-threads 8 --offline || cargo test --workspace --no-fail-fast --offline)",
                    "source_commits": hooks, "add_only": True},
